@@ -21,6 +21,10 @@ func TestC16(t *testing.T) {
 		"Every tuple is distinct and counts as non-trivial (the domain has no trivial region).")
 	c.Assume("hooks VerifEncodeOfsNbits* / VerifDecode* are plain wrappers of the unexported helpers (openflow13/verif_hooks.go)")
 
+	if !hooksAvailable {
+		c.Label("hooks_unavailable")
+		c.Assume("built without the verif tag (the library's hook files did not compile): registry names come from the transcribed table, stored entries and the unexported ofs_nbits helpers are reached through their public users only")
+	}
 	for first := 0; first <= 31; first++ {
 		for last := first; last <= 31; last++ {
 			c.Eval()
@@ -83,18 +87,18 @@ func TestC16(t *testing.T) {
 			c.NonTrivial(ev.HashStr("ofsw", fmt.Sprint(ofs), fmt.Sprint(w)))
 			cs := fmt.Sprintf("ofs=%d nbits=%d", ofs, w)
 			want := uint16(ofs)<<6 | uint16(w-1)
-			enc := of.VerifEncodeOfsNbits(uint16(ofs), uint16(w))
+			enc := hookEncodeOfsNbits(uint16(ofs), uint16(w))
 			if enc != want {
 				c.Report(nil, "C16|encodeOfsNbits|value-mismatch", fmt.Sprintf("%s: got %#04x want %#04x", cs, enc, want), cs)
 			}
-			if got := of.VerifDecodeOfs(want); got != uint16(ofs) {
+			if got := hookDecodeOfs(want); got != uint16(ofs) {
 				c.Report(nil, "C16|decodeOfs|value-mismatch", fmt.Sprintf("%s: got %d", cs, got), cs)
 			}
-			if got := of.VerifDecodeNbits(want); got != uint16(w) {
+			if got := hookDecodeNbits(want); got != uint16(w) {
 				c.Report(nil, "C16|decodeNbits|value-mismatch", fmt.Sprintf("%s: got %d", cs, got), cs)
 			}
 			// first/last form (only meaningful while last fits 16 bits, which it always does here)
-			if got := of.VerifEncodeOfsNbitsStartEnd(uint16(ofs), uint16(ofs+w-1)); got != want {
+			if got := hookEncodeOfsNbitsStartEnd(uint16(ofs), uint16(ofs+w-1)); got != want {
 				c.Report(nil, "C16|encodeOfsNbitsStartEnd|value-mismatch", fmt.Sprintf("%s: got %#04x want %#04x", cs, got, want), cs)
 			}
 		}
